@@ -52,7 +52,7 @@ theorem sem_rename (ρ : String → String) (hρ : Function.Injective ρ) (U : L
 example : operandFlow "+" (.var "y") (.var "z") 0 "z" = .p ∧ operandFlow "-" (.var "y") (.var "z") 1 "z" = .m := by
   decide
 example : desugar (.doWhile (.id "c") (.assign "=" (.id "x") (.id "y"))) = some (.while_ (.asgnVar "x" "y")) := by
-  simp [desugar, Node.rmCast]
+  simp [desugar, Node.rmCast, changesVariable]
 -- a derivation that succeeds, with a skip in the middle / as a singleton
 example : sem ["x", "y"] (.seq ([.bin "+" "x" (.var "x") (.var "y")] ++ .skip :: [.asgnVar "y" "x"])) 0 [1]
     = some (1, [[.p, .p], [.m, .m]]) := by decide
